@@ -8,7 +8,8 @@ for f in sorted(glob.glob('/verif/seeded/*/meta.json')):
     missed = ('missed' in needs) or not m['caught_by_quick_checks']
     rows.append((m['id'], m['property'], ', '.join(m['caught_by_quick_checks']) or '—', 'no' if missed else 'yes', needs.replace('|', '\\|')))
 first = sum(1 for r in rows if r[3] == 'yes')
-uncaught = [r[0] for r in rows if r[2] == '—']
+obsolete = [json.load(open(f))['id'] for f in sorted(glob.glob('/verif/seeded/*/meta.json')) if 'obsolete' in json.load(open(f))]
+uncaught = [r[0] for r in rows if r[2] == '—' and r[0] not in obsolete]
 txt = []
 txt.append('## 10. Seeded changes and which check catches which\n')
 txt.append('`/verif/seeded/<id>/` holds %d changes to xarantolus/ax (`patch.diff`), each with a demonstration\n'
@@ -23,8 +24,11 @@ txt.append('Four rounds were run (…-a/-b: round 1; …-c/-d: round 2, whose ag
            'were verified, evaluated — all caught — and not archived). **%d of the %d changes were caught by a quick\n'
            'check the first time it saw them; the other %d were missed and led to a stronger generator or oracle**\n'
            '(column "first run"; what was missing is in the last column and in each `meta.json`). %d are caught now;\n'
-           'not caught: %s (the reasons — both are places where the harness cannot demand more without raising\n'
-           'alarms on legitimate changes — are in their rows). `tools/matrix.sh` re-runs the whole matrix.\n' % (first, len(rows), len(rows) - first, len(rows) - len(uncaught), ', '.join(uncaught) or 'none'))
+           'not caught: %s (the harness cannot demand more there without raising alarms on legitimate changes — see\n'
+           'its row); obsolete: %s (overtaken by a repair of the pinned tree that it led to; its rebased patch no\n'
+           'longer fails its own demonstration). Patches that touched lines later changed by fix commits were rebased\n'
+           '(`patch.orig.diff` keeps the original) and re-confirmed with `tools/reverify_rebased.sh`.\n'
+           '`tools/matrix.sh` re-runs the whole matrix.\n' % (first, len(rows), len(rows) - first, len(rows) - len(uncaught) - len(obsolete), ', '.join(uncaught) or 'none', ', '.join(obsolete) or 'none'))
 txt.append('| id | property | caught by (quick) | first run | what it needs to manifest / why it was missed |')
 txt.append('|---|---|---|---|---|')
 for r in rows:
